@@ -748,10 +748,19 @@ Section Events.
 Variable M : Sem.
 Notation Ct := (C M).
 
+(* the operations created together with an inserted op: itself and the ops of its new regions *)
+Definition newop_ids (n : newop) : list op :=
+  no_id n :: flat_map (fun g => match g with
+                                | NRFresh bs => flat_map (fun b => map lf_id (nb_body b)) bs
+                                | NRLimbo _ => []
+                                end) (no_regions n).
+Definition action_news (a : action) : list newop :=
+  match a with AInsert news _ => news | AReplace _ news _ => news | _ => [] end.
+
 (* the operations a primitive may create, kill, or whose operands it may rewrite *)
 Definition touched (p : prim) (c : Ct) (o : op) : Prop :=
   match p with
-  | PInsert news ip => exists n, In n news /\ In o (subops M (run_prim M p c) (no_id n))
+  | PInsert news ip => exists n, In n news /\ In o (newop_ids n)
   | PErase o1 => In o (subops M c o1)
   | PRauw v _ | PEraseValue v | PEraseArg v => In o (map fst (uses M c v))
   | PRauwIf v _ q => In o (map fst (filter (eval_upred q) (uses M c v)))
@@ -770,15 +779,18 @@ Record EvLaws : Prop := {
   ev_erased_uses : forall v c, uses M (p_erase_value M v c) v = []
 }.
 
-(* an event reports o if it is a modification of o, or the insertion / removal of an operation
-   whose walk() contains o at that moment *)
-Definition covers (e : event) (cs : Ct) (o : op) : Prop :=
+(* an event reports o if it is a modification of o, the removal of an operation whose walk()
+   contains o at that moment, or the insertion of a new operation that o is (part of);
+   `news` are the new operations handed to the call *)
+Definition covers (news : list newop) (e : event) (cs : Ct) (o : op) : Prop :=
   match e with
   | EModify o' => o' = o
-  | EInsert o' | ERemove o' => In o (subops M cs o')
+  | ERemove o' => In o (subops M cs o')
+  | EInsert o' => exists n, In n news /\ no_id n = o' /\ In o (newop_ids n)
   | _ => False
   end.
-Definition covered (t : trace M) (o : op) : Prop := exists e cs, In (e, cs) t /\ covers e cs o.
+Definition covered (news : list newop) (t : trace M) (o : op) : Prop :=
+  exists e cs, In (e, cs) t /\ covers news e cs o.
 
 Definition no_silent_rewrite (a : action) : Prop :=
   match a with AInlineBlock _ _ args => args = [] | _ => True end.
@@ -803,43 +815,43 @@ Proof.
     + right. right. right. auto.
 Qed.
 
-Lemma covered_app_l t1 t2 o : covered t1 o -> covered (t1 ++ t2) o.
+Lemma covered_app_l ns t1 t2 o : covered ns t1 o -> covered ns (t1 ++ t2) o.
 Proof. intros (e & cs & Hin & Hc). exists e, cs. split; auto. apply in_or_app. auto. Qed.
-Lemma covered_app_r t1 t2 o : covered t2 o -> covered (t1 ++ t2) o.
+Lemma covered_app_r ns t1 t2 o : covered ns t2 o -> covered ns (t1 ++ t2) o.
 Proof. intros (e & cs & Hin & Hc). exists e, cs. split; auto. apply in_or_app. auto. Qed.
 
-Lemma covered_cons e t o : covered t o -> covered (e :: t) o.
+Lemma covered_cons ns e t o : covered ns t o -> covered ns (e :: t) o.
 Proof. intros (e' & cs & Hin & Hc). exists e', cs. split; auto. right. exact Hin. Qed.
 
 Lemma x_insert_events (L : EvLaws) news ip c r c1 r1 t o :
-  x_insert M news ip c r = (c1, r1, t) -> changed c c1 o -> covered t o.
+  x_insert M news ip c r = (c1, r1, t) -> changed c c1 o -> covered news t o.
 Proof.
   unfold x_insert. intros H Hc. destruct news as [|n news].
   - inversion H; subst. destruct (changed_refl _ _ Hc).
   - inversion H; subst. clear H.
     apply (ev_touched L (PInsert (n :: news) (real_ip r ip))) in Hc. simpl in Hc.
     destruct Hc as (n' & Hn' & Ho).
-    exists (EInsert (no_id n')), (p_insert M (n :: news) (real_ip r ip) c). split; [|exact Ho].
+    exists (EInsert (no_id n')), (p_insert M (n :: news) (real_ip r ip) c). split; [|exists n'; auto].
     exact (in_map (fun n0 => (EInsert (no_id n0), p_insert M (n :: news) (real_ip r ip) c)) (n :: news) n' Hn').
 Qed.
 
-Lemma x_erase_events (L : EvLaws) o1 c r c1 r1 t o :
-  x_erase M o1 c r = (c1, r1, t) -> changed c c1 o -> covered t o.
+Lemma x_erase_events (L : EvLaws) ns o1 c r c1 r1 t o :
+  x_erase M o1 c r = (c1, r1, t) -> changed c c1 o -> covered ns t o.
 Proof.
   unfold x_erase. intros H Hc. inversion H; subst.
   apply (ev_touched L (PErase o1)) in Hc. simpl in Hc.
   exists (ERemove o1), c. split; simpl; auto.
 Qed.
 
-Lemma modify_events_cover (m : list op) (c1 : Ct) o :
-  In o m -> covered (map (fun o' => (EModify o', c1)) m) o.
+Lemma modify_events_cover ns (m : list op) (c1 : Ct) o :
+  In o m -> covered ns (map (fun o' => (EModify o', c1)) m) o.
 Proof.
   intros Hin. exists (EModify o), c1. split; simpl; auto.
   apply in_map_iff. exists o. auto.
 Qed.
 
-Lemma x_rauw_events (L : EvLaws) from to c r c1 r1 t o :
-  x_rauw M from to c r = (c1, r1, t) -> changed c c1 o -> covered t o.
+Lemma x_rauw_events (L : EvLaws) ns from to c r c1 r1 t o :
+  x_rauw M from to c r = (c1, r1, t) -> changed c c1 o -> covered ns t o.
 Proof.
   unfold x_rauw. intros H Hc.
   destruct (match to with Some t0 => Nat.eqb from t0 | None => false end).
@@ -857,8 +869,8 @@ Proof.
       rewrite E2. apply modify_events_cover. exact Hc.
 Qed.
 
-Lemma x_rauw_all_events (L : EvLaws) prs : forall c r c1 r1 t o,
-  x_rauw_all M prs c r = (c1, r1, t) -> changed c c1 o -> covered t o.
+Lemma x_rauw_all_events (L : EvLaws) ns prs : forall c r c1 r1 t o,
+  x_rauw_all M prs c r = (c1, r1, t) -> changed c c1 o -> covered ns t o.
 Proof.
   induction prs as [|[old new] rest IH]; simpl; intros c r c1 r1 t o H Hc.
   - inversion H; subst. destruct (changed_refl _ _ Hc).
@@ -872,7 +884,7 @@ Qed.
 
 (* C11_events_complete *)
 Theorem events_complete (L : EvLaws) a c r c1 r1 t o :
-  no_silent_rewrite a -> exec M true a c r = (c1, r1, t) -> changed c c1 o -> covered t o.
+  no_silent_rewrite a -> exec M true a c r = (c1, r1, t) -> changed c c1 o -> covered (action_news a) t o.
 Proof.
   intros Hns H Hc. destruct a; simpl in H.
   - eapply x_insert_events; eauto.
